@@ -45,6 +45,11 @@ def plans_for(m, tier, salt):
     for k in ks:
         for L in (2, 3, 4):
             plans.append(list(range(k, k + L)))
+    # failures in the closing step of a fit (after gpyreg has emptied its posterior slots): the initial fit and one refit
+    plans.append([-1])
+    if m >= 2:
+        plans.append([-(m // 2) - 1])
+        plans.append([-1, 1])
     if m >= 3:
         plans.append([0, m // 2])
         plans.append([0, m // 2, m - 1])
@@ -58,10 +63,11 @@ def plans_for(m, tier, salt):
 
 
 def check_plan(scn, plan):
-    tr = harness.run(scn, want=("improve",), fit_faults=set(plan))
+    # (negative entries -(k+1): fit k fails in its closing posterior update instead of at the start)
+    tr = harness.run(scn, want=("improve",), fit_faults={p_ for p_ in plan if p_ >= 0}, fit_closing={-p_ - 1 for p_ in plan if p_ < 0})
     v = []
     hit = [e for e in tr.events if e.get("type") == "fit_fault"]
-    tag = f"GP.fit failing at invocations {plan}"
+    tag = f"GP.fit failing at invocations {[p_ if p_ >= 0 else 'closing step of %d' % (-p_ - 1) for p_ in plan]}"
     if tr.ctor_exc is not None:
         return [], tr, hit
     if tr.run_exc is not None:
@@ -89,7 +95,9 @@ def body(scn, tier="quick"):
     for p in plans:
         v, tr, hit = check_plan(scn, p)
         evals += 1
-        consec = any(b - a == 1 for a, b in zip(p, p[1:]))
+        consec = any(b - a == 1 for a, b in zip(p, p[1:]) if a >= 0)
+        if any(x_ < 0 for x_ in p):
+            labs.append("plan:closing-step")
         labs.append(f"plan:{'run' + str(len(p)) if consec and len(p) > 1 else ('single' if len(p) == 1 else 'scattered')}/{mode}")
         if len(hit) >= 1 and ((consec and mode != "none" and len(hit) >= 2) or any(h["i"] >= 1 for h in hit)):
             ntriv.append(tuple(p))
